@@ -383,6 +383,34 @@ def sibling_bindings(acc):
                             acc.violation({"symptom": "inner-arguments-differ", "sibling_bindings": True, "outer_bind": outer_bind}, {"sibling_bindings": True}, f"{n} sibling nested graphs binding k differently (order {perm}, depth {depth}, outer binding {outer_bind}, {runner}): status {x.status}, inner functions received k = {jsonable(got)}, expected {jsonable(exp)}")
 
 
+def inner_select_renamed_outputs(acc):
+    """'exposes exactly its (selected) outputs': the inner graph carries a default selection (every ordered non-empty selection of its
+    three outputs) and the wrapper renames one selected output, or swaps two, or renames none; depth 1 and 2, both runners.  The
+    values of the flat graph must arrive under the right exposed names and nothing else may appear."""
+    base = [T.fn("fa", ["x"], ["a0"]), T.fn("fb", ["a0"], ["b0"]), T.fn("fc", ["a0"], ["c0"])]
+    outs = ["a0", "b0", "c0"]
+    for runner in ("sync", "async"):
+        ref = observe(T.prog(copy.deepcopy(base)), {"x": ["prov", "x"]}, runner)
+        acc.evaluations += 1
+        for r in (1, 2, 3):
+            for sel in itertools.permutations(outs, r):
+                renames = [{}] + [{o: o + "_r"} for o in sel] + ([{sel[0]: sel[1], sel[1]: sel[0]}] if len(sel) >= 2 else [])
+                for rn in renames:
+                    for depth in (1, 2):
+                        inner = T.prog(copy.deepcopy(base), name="inr", select=list(sel))
+                        node = T.gnode("inr", inner, **({"rename_out": rn} if rn else {}))
+                        prog = T.prog([node])
+                        if depth == 2:
+                            prog["name"] = "mid"
+                            prog = T.prog([T.gnode("mid", prog)])
+                        got = observe(prog, {"x": ["prov", "x"]}, runner)
+                        acc.evaluations += 1
+                        acc.key(("inner-select-renamed", sel, tuple(sorted(rn.items())), depth, runner))
+                        exp = {rn.get(o, o): ref["values"][o] for o in sel}
+                        if got.get("status") != "completed" or got.get("values") != exp:
+                            acc.violation({"symptom": "values-differ", "inner_select": True, "renamed": bool(rn)}, {"inner_select_renamed_outputs": True}, f"inner graph .select{sel}, wrapper with_outputs({rn}), depth {depth}, {runner}: got {got.get('status')} {jsonable(got.get('values'))}, expected exactly {jsonable(exp)}")
+
+
 OPTION_LIKE_NAMES = ["values", "select", "max_iterations", "entrypoint", "on_missing", "on_internal_override", "error_handling", "event_processors", "graph", "max_concurrency", "map_over", "clone", "self", "runner", "kwargs"]
 
 
@@ -421,6 +449,8 @@ def run_shard(shard):
         option_like_names(acc)
     if s == 2:
         sibling_bindings(acc)
+    if s == 3:
+        inner_select_renamed_outputs(acc)
     for ci, (shape, src, od, S) in enumerate(configs(tier, seed)):
         if ci % k != s:
             continue
@@ -435,6 +465,10 @@ def coverage_extra(acc, tier, seed):
 
 
 def replay(rep):
+    if "inner_select_renamed_outputs" in rep:
+        acc = Acc()
+        inner_select_renamed_outputs(acc)
+        return [v["message"] for v in acc.violations.values()]
     if "sibling_bindings" in rep:
         acc = Acc()
         sibling_bindings(acc)
